@@ -108,3 +108,29 @@ PROPS["C08"] = {
         H("c17_scalars::c17_pop_front", bounds="char_pop_front on every ordered pair of scalar values", exhaustive=True),
     ],
 }
+
+PROPS["C05"] = {
+    "claim": "every Editor operation (insert of one scalar / of a text, move left/right, remove, Backspace = move_left+remove, clear, len, text, text_range) from ANY state satisfying the representation invariant equals the ideal editor over scalar values, byte for byte, for every buffer size 0..=6 (quick) / 0..=8 (thorough) in one query (buffer = &mut backing[..n], n symbolic); the invariant is re-established, so by induction the claim covers edit histories of any length",
+    "assumptions": [
+        "editor_inv: valid <= n, buf[..valid] well-formed UTF-8 without C0 controls, cursor <= scalar count (base case c05_base; every such state is reachable by typing the text and pressing Left)",
+        "inserted characters are scalars >= U+0020 (the decoder never produces others, C04)",
+        "buffers larger than the bound are outside the claim",
+    ],
+    "harnesses": [
+        H("c05_editor::c05_insert_char", tier="quick", bounds="n<=6, any state, every scalar >= U+0020", timeout=900, mem=4),
+        H("c05_editor::c05_insert_text", tier="quick", bounds="n<=6, any state, any well-formed text <= 6 bytes", timeout=900, mem=4),
+        H("c05_editor::c05_move", tier="quick", bounds="n<=6, any state"),
+        H("c05_editor::c05_remove", tier="quick", bounds="n<=6, any state"),
+        H("c05_editor::c05_backspace", tier="quick", bounds="n<=6, any state"),
+        H("c05_editor::c05_observers", tier="quick", bounds="n<=6, any state, any range start"),
+        H("c05_editor::c05_base", tier="quick", bounds="n<=6"),
+        H("c05_editor::c05_insert_char", tier="thorough", cfg=["vp_thorough"], bounds="n<=8", timeout=3400, mem=8),
+        H("c05_editor::c05_insert_text", tier="thorough", cfg=["vp_thorough"], bounds="n<=8", timeout=3400, mem=8),
+        H("c05_editor::c05_move", tier="thorough", cfg=["vp_thorough"], bounds="n<=8", timeout=3400),
+        H("c05_editor::c05_remove", tier="thorough", cfg=["vp_thorough"], bounds="n<=8", timeout=3400, mem=8),
+        H("c05_editor::c05_backspace", tier="thorough", cfg=["vp_thorough"], bounds="n<=8", timeout=3400, mem=8),
+        H("c05_editor::c05_observers", tier="thorough", cfg=["vp_thorough"], bounds="n<=8", timeout=3400),
+        H("c05_editor::c05_base", tier="thorough", cfg=["vp_thorough"], bounds="n<=8"),
+        H("c05_editor::c05_insert_twin", kind="twin"),
+    ],
+}
